@@ -577,11 +577,17 @@ def guarded_input(text="", max_reads=64):
     return _GuardedInputStream(text)
 
 
-def run_buffered(app, tokens, stdin="", as_string=False, catch=(Exception, KeyboardInterrupt)):
+def run_buffered(app, tokens, stdin="", as_string=False, catch=(Exception, KeyboardInterrupt), terminal=False):
     """app.run on buffered streams (the input stream gives up after 64 reads by raising ReadBudgetExceeded);
-    exceptions of the classes in `catch` that escape run are returned, not raised"""
+    exceptions of the classes in `catch` that escape run are returned, not raised; terminal: the two output streams
+    announce ANSI support"""
     from clikit.io.output_stream import BufferedOutputStream
     out, err = BufferedOutputStream(), BufferedOutputStream()
+    if terminal:
+        class Capable(BufferedOutputStream):
+            def supports_ansi(self):
+                return True
+        out, err = Capable(), Capable()
     status = raised = None
     try:
         status = app.run(raw_args(tokens, as_string), guarded_input(stdin), out, err)
